@@ -84,7 +84,7 @@ Proof.
   intros OR RS VP PM C RQ CD PT E.
   destruct (resolved_versions st RS) as (pv' & mg' & VP' & PM' & V0 & MG & MV).
   rewrite VP in VP'. injection VP' as <-. rewrite PM in PM'. injection PM' as <-.
-  destruct (created_set_view orc clock reqs codec mg ms eclock 0%nat OR C RQ CD) as [SV _].
+  destruct (created_set_view orc clock reqs codec mg ms eclock 0%nat OR C RQ CD MG) as [SV _].
   eexists. split; [|split; [reflexivity|]].
   - eapply produce_parses; [exact E| |exact V0|].
     + cbn. rewrite PT. reflexivity.
